@@ -4,10 +4,12 @@ import (
 	"bytes"
 	"context"
 	"crypto/tls"
+	"encoding/binary"
 	"fmt"
 	"io"
 	"net"
 	"net/http"
+	"regexp"
 	"strings"
 	"sync"
 	"time"
@@ -26,6 +28,8 @@ var (
 	normalOpts = execOpts{drain: 7 * time.Second, udp: 150 * time.Millisecond}
 	fastOpts   = execOpts{drain: 900 * time.Millisecond, udp: 150 * time.Millisecond}
 )
+
+var reStatus = regexp.MustCompile(`(HTTP|RTSP)/1\.[01] (\d{3}) `)
 
 var tlsClientConf = &tls.Config{InsecureSkipVerify: true} //nolint:gosec
 
@@ -127,6 +131,7 @@ func runTCP(e *Exchange, p Ports, o execOpts) (string, bool) {
 		return cs, nil
 	}
 	class := ""
+	waitSteps := 100
 	for _, w := range ws {
 		if w.Pause > 0 {
 			time.Sleep(time.Duration(w.Pause) * time.Millisecond)
@@ -137,14 +142,19 @@ func runTCP(e *Exchange, p Ports, o execOpts) (string, bool) {
 			break
 		}
 		if w.WaitResp {
-			for i := 0; i < 100; i++ {
+			// bounded: 2 s for the first answer that does not come, 100 ms for the following ones (a server that has
+			// stopped answering is waiting for something the mutation took away)
+			ready := false
+			for i := 0; i < waitSteps && !ready; i++ {
 				rmu.Lock()
-				ready := cs.rx > cs.rxAtSend || cs.done
+				ready = cs.rx > cs.rxAtSend || cs.done
 				rmu.Unlock()
-				if ready {
-					break
+				if !ready {
+					time.Sleep(20 * time.Millisecond)
 				}
-				time.Sleep(20 * time.Millisecond)
+			}
+			if !ready {
+				waitSteps = 5
 			}
 		}
 		data := w.Data
@@ -153,11 +163,15 @@ func runTCP(e *Exchange, p Ports, o execOpts) (string, bool) {
 				continue
 			}
 			val := ec.Default
-			rmu.Lock()
-			if all := ec.Re.FindAllSubmatch(cs.buf.Bytes(), -1); len(all) > 0 && len(all[len(all)-1]) > 1 {
-				val = string(all[len(all)-1][1])
+			if ec.Gen != nil {
+				val = ec.Gen()
+			} else {
+				rmu.Lock()
+				if all := ec.Re.FindAllSubmatch(cs.buf.Bytes(), -1); len(all) > 0 && len(all[len(all)-1]) > 1 {
+					val = string(all[len(all)-1][1])
+				}
+				rmu.Unlock()
 			}
-			rmu.Unlock()
 			data = bytes.ReplaceAll(data, []byte(ec.Placeholder), []byte(val))
 		}
 		_ = cs.c.SetWriteDeadline(time.Now().Add(5 * time.Second))
@@ -223,7 +237,7 @@ func runTCP(e *Exchange, p Ports, o execOpts) (string, bool) {
 			cs.c.Close()
 		}
 	}
-	if class != "" {
+	if class == "dial-error" {
 		return class, false
 	}
 	var parts []string
@@ -238,6 +252,10 @@ func runTCP(e *Exchange, p Ports, o execOpts) (string, bool) {
 	if streaming {
 		cl += "+streaming"
 	}
+	if class != "" {
+		// the server had closed the connection before the last messages were written
+		return cl + "+" + class, false
+	}
 	return cl, closedByServer
 }
 
@@ -248,6 +266,13 @@ func classifyTCP(s *Seed, b []byte) string {
 	}
 	if bytes.HasPrefix(b, []byte("HTTP/")) || bytes.HasPrefix(b, []byte("RTSP/")) {
 		var codes []string
+		if s.Open {
+			// sessions of several requests: bodies and interleaved frames do not end with a line break
+			for _, m := range reStatus.FindAllSubmatch(b, 12) {
+				codes = append(codes, string(m[1])+string(m[2]))
+			}
+			return strings.Join(codes, ",")
+		}
 		for _, line := range bytes.Split(b, []byte("\r\n")) {
 			if (bytes.HasPrefix(line, []byte("HTTP/")) || bytes.HasPrefix(line, []byte("RTSP/"))) && len(line) >= 12 {
 				codes = append(codes, string(line[:4])+string(line[9:12]))
@@ -303,6 +328,12 @@ func runSRT(e *Exchange, p Ports, o execOpts) string {
 	defer c.Close()
 	var cookie []byte
 	patch := func(i int, d []byte) []byte {
+		if e.Seed.Open && len(d) >= srtSocketIDOff+4 {
+			// gosrt keeps one pending handshake per peer socket id: exchanges that are accepted (open world) and run
+			// concurrently need distinct ones, as distinct clients have
+			d = append([]byte(nil), d...)
+			binary.BigEndian.PutUint32(d[srtSocketIDOff:], 0x35000000+uint32(e.ID))
+		}
 		if i == 1 && cookie != nil && len(d) >= srtCookieOff+4 {
 			d = append([]byte(nil), d...)
 			copy(d[srtCookieOff:], cookie)
@@ -311,7 +342,7 @@ func runSRT(e *Exchange, p Ports, o execOpts) string {
 	}
 	buf := make([]byte, 2048)
 	// message 0 (induction) first: the cookie of the answer goes into message 1 before its mutation is applied
-	first := e.Materialize(nil)
+	first := e.Materialize(patch)
 	class := "srt"
 	if len(first) > 0 {
 		_, _ = c.Write(first[0].Data)
@@ -365,11 +396,30 @@ func (n wtStreams) openBidi(ctx context.Context) (io.ReadWriteCloser, error) {
 
 // sendStreams writes every message as the complete payload of a new stream and collects a bounded part of the
 // answers on bidirectional streams.
-func sendStreams(ctx context.Context, qs quicStreams, ws []wire, wait time.Duration) string {
+func sendStreams(ctx context.Context, qs quicStreams, ws []wire, wait time.Duration, hold bool) string {
 	var wg sync.WaitGroup
 	var mu sync.Mutex
 	answers := 0
+	bidi := 0
+	var held []io.Closer
+	defer func() {
+		for _, c := range held {
+			_ = c.Close()
+		}
+	}()
 	for _, w := range ws {
+		if w.WaitResp {
+			// a client sends this request after the previous ones have been answered (bounded)
+			for i := 0; i < 75; i++ {
+				mu.Lock()
+				ok := answers >= bidi
+				mu.Unlock()
+				if ok {
+					break
+				}
+				time.Sleep(20 * time.Millisecond)
+			}
+		}
 		if w.Stream == 0 {
 			st, err := qs.openUni(ctx)
 			if err != nil {
@@ -383,8 +433,14 @@ func sendStreams(ctx context.Context, qs quicStreams, ws []wire, wait time.Durat
 		if err != nil {
 			return "moq:open-error"
 		}
+		bidi++
 		_, _ = st.Write(w.Data)
-		_ = st.Close()
+		if hold {
+			// a request stream stays open for as long as the client wants the subscription / publication
+			held = append(held, st)
+		} else {
+			_ = st.Close()
+		}
 		wg.Add(1)
 		go func() {
 			defer wg.Done()
@@ -424,7 +480,7 @@ func runMoQ(e *Exchange, p Ports, o execOpts) string {
 	if err != nil {
 		return "moq:dial-error"
 	}
-	cl := sendStreams(ctx, nativeStreams{conn}, e.Materialize(nil), 400*time.Millisecond)
+	cl := sendStreams(ctx, nativeStreams{conn}, e.Materialize(nil), 400*time.Millisecond, e.Seed.Open)
 	_ = conn.CloseWithError(0, "")
 	return cl
 }
@@ -451,7 +507,7 @@ func runMoQW(e *Exchange, p Ports, o execOpts) string {
 		return "moqw:dial-error"
 	}
 	defer res.Body.Close() //nolint:errcheck
-	cl := sendStreams(ctx, wtStreams{sx}, e.Materialize(nil), 400*time.Millisecond)
+	cl := sendStreams(ctx, wtStreams{sx}, e.Materialize(nil), 400*time.Millisecond, e.Seed.Open)
 	_ = sx.CloseWithError(0, "")
 	return "w" + cl
 }
